@@ -61,7 +61,9 @@ func rulesC01(w *World, r *Report) {
 	w.ruleTypeSlots(r, "C01.R2 type slots: literal, or numbered like the decoder numbers them")
 	w.ruleNoDoubleWrap(r, "C01.R5 a carrier is never wrapped twice")
 	w.ruleNoGetterOnInvalid(r, "C01.R6 no reflect accessor on a Value that may be the zero Value")
-	w.ruleCountedTraversals(r, "C01.R8 counted traversals visit every member", 12, nil)
+	w.ruleCountedTraversals(r, "C01.R8 counted traversals visit every member", 6, nil)
+	w.ruleConversionLoops(r, "C01.R9 a conversion loop fills every slot from the element of its turn", 1)
+	w.ruleSettersWrite(r, "C01.R10 a setter writes its destination on every path that has a value", 1)
 	w.ruleInternalErrorsPropagate(r, "C01.R7 a failed conversion or binding surfaces, a successful one continues", 10)
 	// R3
 	for _, x := range []struct {
@@ -347,7 +349,7 @@ func (w *World) decoderLayer() map[*ssa.Function]map[*ssa.Function]bool {
 func rulesC02(w *World, r *Report) {
 	{
 		reach := w.reachPkg(w.encoderRoots()...)
-		w.ruleCountedTraversals(r, "C02.R9 the encoder writes every member of a container", 5, func(fn *ssa.Function) bool { return reach[fn] || reach[rootFn(fn)] })
+		w.ruleCountedTraversals(r, "C02.R9 the encoder writes every member of a container", 3, func(fn *ssa.Function) bool { return reach[fn] || reach[rootFn(fn)] })
 	}
 	// R1
 	w.ruleNumEncoder(r, "C02.R1 int/long forms conform", "C02.R1 int/long tags and windows conform", "int", specInt)
